@@ -60,7 +60,7 @@ Qed.
 Require Import MV.C07.Proofs_Rigid MV.C07.Proofs_MeshRigid MV.C07.Proofs_Angles MV.C07.Proofs_Interp MV.C07.Proofs_GB MV.C07.Proofs_Renum
   MV.C07.Proofs_Count MV.C07.Proofs_GBfull MV.C07.Proofs_Findings MV.C07.Proofs_Circum
   MV.C07.Proofs_Keyed MV.C07.Proofs_RenumV MV.C07.Proofs_FacePerm MV.C07.Proofs_FanRot MV.C07.Proofs_RenumFull
-  MV.C07.Proofs_MeshScale MV.C07.Proofs_C2F.
+  MV.C07.Proofs_MeshScale MV.C07.Proofs_C2F MV.C07.Proofs_Convex MV.C07.Proofs_Global.
 
 (* For EVERY rotation matrix Q (Q^T Q = I, det Q = 1), EVERY translation t and EVERY well-formed mesh:
    scalar quantities are unchanged, positions move with the mesh, directions rotate. *)
@@ -216,7 +216,7 @@ Proof.
 Qed.
 
 (* ====================================================================== renumbering *)
-Definition renumbering_statement : Prop :=
+Definition renumbering_partial_statement : Prop :=
   (* (a) renumbering the vertices by sigma (injective on the vertex range); the renumbered mesh may store an edge in
          either orientation.  Per-edge/face/corner/cell attributes are unchanged, per-vertex attributes move with sigma *)
   (forall (m m' : mesh R) (sigma : Z -> Z) (sw : Z * Z -> bool), wf_mesh m ->
@@ -273,7 +273,7 @@ Definition renumbering_statement : Prop :=
 Lemma distance_sym (A B : V3) : g_distance Rops A B = g_distance Rops B A.
 Proof. apply distance_symm. Qed.
 
-Lemma renumbering_proof : renumbering_statement.
+Lemma renumbering_proof : renumbering_partial_statement.
 Proof.
   repeat apply conj.
   - intros m m' sigma sw WF nV LEN INJ MAPS PTS FS CS ES.
@@ -403,10 +403,11 @@ Proof.
   - intros w ang Hw Hang. apply c2f_const; [assumption| |assumption]. intros F H. apply (HF F H).
 Qed.
 
+Definition tri_mesh : mesh R := mkmesh [(0, 0, 0); (1, 0, 0); (0, 1, 0)] [(0, 1); (1, 2); (0, 2)]%Z [[0; 1; 2]]%Z [].
 Example interpolate_constant_nonvacuous :
-  let m := ex_mesh in
-  (forall F, In F (faces m) -> F <> [] /\ forall v, In v F -> (0 <= v < 4)%Z) /\
-  (forall v, (0 <= v < 3)%Z -> exists F, In F (faces m) /\ In v F).
+  let m := tri_mesh in let nV := length (verts m) in
+  (forall F, In F (faces m) -> F <> [] /\ forall v, In v F -> (0 <= v < Z.of_nat nV)%Z) /\
+  (forall v, (0 <= v < Z.of_nat nV)%Z -> exists F, In F (faces m) /\ In v F).
 Proof.
   cbn. split.
   - intros F [<-|[]]. split; [discriminate|]. intros v [<-|[<-|[<-|[]]]]; lia.
@@ -433,3 +434,76 @@ Definition face_normal_rotation_refuted_statement : Prop :=
   exists A B C D : V3,
     0 < n2 (cross (B -v A) (C -v A)) /\ 0 < n2 (cross (C -v B) (D -v B)) /\
     g_face_normal Rops A B C <> g_face_normal Rops B C D.
+
+(* ====================================================================== definitions, second part: textbook areas of quads
+   and n-gons (planar convex), global sums and means, per-vertex quantities, mesh-level cotangent weight *)
+Definition definitions_global_statement : Prop :=
+  (* planar convex quad: half the norm of the cross product of the diagonals *)
+  (forall nh A B C D : V3, convex_quad nh A B C D -> g_quad_area Rops A B C D = norm Rops (cross (C -v A) (D -v B)) / 2) /\
+  (* n-gon (>= 5 vertices): the fan about the barycentre; planar convex: half the norm of the shoelace vector area *)
+  (forall pts : list V3, (5 <= zlen pts)%Z ->
+     g_face_area Rops pts = Rsum (map (fun pq => g_triangle_area Rops (fst pq) (snd pq) (g_face_bary Rops pts)) (cyc_pairs pts)) /\
+     (forall nh, convex_fan nh pts -> g_face_area Rops pts = norm Rops (shoelace2 pts) / 2)) /\
+  (* barycentres: the sum of the points divided by their number *)
+  (forall pts : list V3, g_face_bary Rops pts = vdiv Rops (vsum Rops pts) (IZR (zlen pts)) /\
+                         g_cell_bary Rops pts = vdiv Rops (vsum Rops pts) (IZR (zlen pts)) /\
+                         g_barycenter Rops pts = vdiv Rops (vsum Rops pts) (IZR (zlen pts))) /\
+  (* means: the first k = min(n, count) values, divided by k; n beyond the count gives the mean of all *)
+  (forall (m : mesh R) (n : option Z),
+     mean_edge_length Rops m n = fold_left Rplus (firstn (Z.to_nat (mean_k n (edges m))) (edge_length Rops m)) 0 / IZR (mean_k n (edges m)) /\
+     mean_face_area Rops m n = fold_left Rplus (firstn (Z.to_nat (mean_k n (faces m))) (face_area Rops m)) 0 / IZR (mean_k n (faces m)) /\
+     mean_cell_volume Rops m n = fold_left Rplus (firstn (Z.to_nat (mean_k n (cells m))) (cell_volume Rops m)) 0 / IZR (mean_k n (cells m)) /\
+     total_area Rops m = fold_left Rplus (face_area Rops m) 0) /\
+  (forall (A : Type) (l : list A) (n : Z), (zlen l <= n)%Z -> mean_k (Some n) l = mean_k None l) /\
+  (* degree: the number of edge ends at the vertex *)
+  (forall (m : mesh R) (v : Z),
+     (forall e, In e (edges m) -> (0 <= fst e < zlen (verts m))%Z /\ (0 <= snd e < zlen (verts m))%Z) ->
+     znth (degree m) v 0%Z
+     = fold_left (fun acc x => if (x =? v)%Z then (acc + 1)%Z else acc) (flat_map (fun e => [fst e; snd e]) (edges m)) 0%Z) /\
+  (* vertex normals: the weighted sum of the face normals, made unit *)
+  (forall x : V3, g_vertex_normal_finish Rops x = normalized Rops x /\ (0 < n2 x -> n2 (g_vertex_normal_finish Rops x) = 1)) /\
+  (forall w ang (m : mesh R), vertex_normals Rops w ang m
+     = map (normalized Rops) (interpolate_faces_to_vertices Rops (vzero Rops) (vadd Rops) (vscale Rops) (vdiv Rops) w
+                                (face_area Rops m) ang m (face_normals Rops m))) /\
+  (* angle defect of a vertex: 2 pi (inside) / pi (border) minus the corner angles at the vertex; 0 on the border if zero_border *)
+  (forall (zb : bool) (pi : R) (ang : list R) (m : mesh R) (v : Z),
+     (forall F, In F (faces m) -> forall u, In u F -> (0 <= u < zlen (verts m))%Z) -> (0 <= v < zlen (verts m))%Z ->
+     let on_border := znth (border_flags m) v false in
+     let angle_sum := Rsum (map (fun cf => znth ang (fst cf) 0) (corners_at (enumerate (corners (faces m))) v)) in
+     znth (angle_defects Rops zb pi ang m) v 0 = if on_border then (if zb then 0 else pi - angle_sum) else 2 * pi - angle_sum) /\
+  (* cotangent weight of an edge: for each of its two half-edges that exists, half the cotangent at the opposite corner *)
+  (forall (m : mesh R), cotan_weights Rops m = map (cw_edge Rops (faces m) (half_edges (faces m)) (cotangent Rops m)) (edges m)) /\
+  (forall fs hes cot (e : Z * Z),
+     cw_edge Rops fs hes cot e = half_edge_term fs hes cot (fst e) (snd e) + half_edge_term fs hes cot (snd e) (fst e)).
+
+Lemma definitions_global_proof : definitions_global_statement.
+Proof.
+  repeat apply conj.
+  - apply quad_area_textbook.
+  - intros pts H. split; [now apply face_area_fan_def|]. intros nh C. now apply (ngon_area_textbook nh).
+  - apply mean_point_def.
+  - intros m n. repeat apply conj; [apply mean_edge_length_def|apply mean_face_area_def|apply mean_cell_volume_def|reflexivity].
+  - intros A l n. apply mean_k_clamp.
+  - apply degree_def.
+  - apply vertex_normal_finish_def.
+  - reflexivity.
+  - apply angle_defect_def.
+  - reflexivity.
+  - apply cw_edge_def.
+Qed.
+
+Example convex_quad_nonvacuous : convex_quad (0, 0, 1) (0, 0, 0) (1, 0, 0) (1, 1, 0) (0, 1, 0).
+Proof.
+  split; [unfR; ring|]. repeat split; exists 1; (split; [lra|unfR; apply vec_eq3; ring]).
+Qed.
+
+(* ====================================================================== recorded finding: planar non-convex faces *)
+(* FULL statements (fail): the two textbook-area clauses above WITHOUT their convexity hypothesis, and "the unit normal of a
+   planar face does not depend on its starting vertex".  Refuted on the dart quad (0,0),(2,1),(4,0),(2,4): *)
+Definition nonconvex_face_refuted_statement : Prop :=
+  let A := (0, 0, 0) in let B := (2, 1, 0) in let C := (4, 0, 0) in let D := (2, 4, 0) in
+  norm Rops (cross (C -v A) (D -v B)) / 2 = 6 /\ g_quad_area Rops A B C D = 8 /\
+  g_face_normal Rops A B C = (0, 0, -1) /\ g_face_normal Rops B C D = (0, 0, 1).
+
+Lemma definitions_full_proof : definitions_statement /\ definitions_global_statement.
+Proof. exact (conj definitions_proof definitions_global_proof). Qed.
